@@ -328,9 +328,11 @@ def pg_classify(case, reason, line):
     if reason == "failure-not-in-every-paradigm" and case.get("dup") and "duplicated key" in res["I"]["msg"] and kinds == "eooo":
         return "fanin-dup-key"
     det = ""
+    if case["shape"] == "fank":
+        det = "-width%d" % len(case["nodes"])
     if reason in ("panic", "hang"):
         bad = [p for p in "ISCT" if res[p]["kind"] == reason]
-        det = "-" + "".join(bad) + "-" + hashlib.sha1(res[bad[0]]["msg"][:50].encode()).hexdigest()[:6]
+        det += "-" + "".join(bad) + "-" + hashlib.sha1(res[bad[0]]["msg"][:50].encode()).hexdigest()[:6]
     return "%s(%s,%s)%s" % (reason, case["shape"], kinds, det)
 
 
@@ -348,12 +350,19 @@ def c04(tier, repo=None):
                 ("chain2", dict(MaxNodes=2, OCs=[2], InFam="three"), None),
                 ("chain3", dict(MaxNodes=3, NatFam="six", OCs=[2], InFam="two"), None),
                 ("shapes", dict(Shapes=others, NatFam="four", OCs=[2], InFam="two", MaxNodes=3, AllowFail=True, AllowDup=True), 3500),
-                ("handlers", dict(MaxNodes=2, NatFam="four", OCs=[2], InFam="two", Handlers=["none", "val", "str"], AllowAny=True, AllowFail=True), 3000)]
+                # fan-in widths 4, 5, 6 (mixed native forms); workflow field mappings with a run-time check from a map source that
+                # stream-native producers emit one key per chunk
+                ("fmap", dict(Shapes=["fmap"], NatFam="six", OCs=[1, 2, 3], InFam="three", MaxNodes=2, AllowFail=True), None),
+                ("handlers", dict(MaxNodes=2, NatFam="four", OCs=[2], InFam="two", Handlers=["none", "val", "str"], AllowAny=True, AllowFail=True), 2500),
+                # last, because a hanging merge uses up the harness's quota of hung calls and the rest is then not run
+                ("wide", dict(Shapes=["fank"], NatFam="four", OCs=[2, 3], InFam="two", MaxNodes=6), None)]
     else:
         fams = [("chain2", dict(MaxNodes=2), 60000),
                 ("chain3", dict(MaxNodes=3, NatFam="six", OCs=[1, 2, 3], InFam="five"), 40000),
                 ("shapes", dict(Shapes=others, NatFam="six", OCs=[2, 3], InFam="three", MaxNodes=3, AllowFail=True, AllowDup=True), 60000),
-                ("handlers", dict(MaxNodes=2, NatFam="six", OCs=[2], InFam="three", Handlers=["none", "val", "str"], AllowAny=True, AllowFail=True), 40000)]
+                ("fmap", dict(Shapes=["fmap"], NatFam="all15", OCs=[1, 2, 3], InFam="five", MaxNodes=2, AllowFail=True), 20000),
+                ("handlers", dict(MaxNodes=2, NatFam="six", OCs=[2], InFam="three", Handlers=["none", "val", "str"], AllowAny=True, AllowFail=True), 40000),
+                ("wide", dict(Shapes=["fank"], NatFam="four", OCs=[1, 2, 3], InFam="five", MaxNodes=6, AllowFail=True), 20000)]
     cases, seen, gen_stats = [], set(), []
     states = trans = 0
     exhaustive = True
@@ -391,6 +400,9 @@ def c04(tier, repo=None):
         raise Inconclusive("the harness could not build %d generated configurations, e.g. %s: %s" % (
             len(notes), notes[0][0], obs[notes[0][0]]["res"]["I"]["msg"]))
     bad = [(b[0], b[2]) for b in res["bad"]]
+    skipped = sum(1 for o in obs.values() if o["res"]["I"]["kind"] == "skip")
+    if skipped:
+        log("  note: %d configurations were not run because the harness had already recorded its quota of hung calls" % skipped)
     confirmed = []
     if bad:
         ids = sorted({cid for cid, _ in bad})
@@ -435,7 +447,7 @@ def c04(tier, repo=None):
         log("  rejected, reproduced: sig=%s %d cases" % (sig, k))
     nontriv = len({pg_key(c) for c in cases if len(c["in"]) > 1 and any(len(n["nat"]) < 4 for n in c["nodes"])})
     some = vlib.sample(sorted(obs.keys()), 3)
-    cov = {"states": states, "transitions": trans, "traces_validated_against_impl": len(obs),
+    cov = {"states": states, "transitions": trans, "traces_validated_against_impl": len(obs) - skipped,
            "samples": [{"case": by_id[k], "observation": {p: {x: obs[k]["res"][p][x] for x in ("kind", "chunks", "forms")} for p in "ISCT"}} for k in some],
            "evaluations": 4 * len(obs), "distinct_nontrivial": nontriv,
            "rule": "configurations = everything TLC enumerates from spec/Paradigm.tla inside the family bounds (shape x native-form subset per node x "
@@ -445,7 +457,7 @@ def c04(tier, repo=None):
                    "chunk and at least one node that lacks a native form (a derivation is exercised)",
            "exhaustive": exhaustive, "families": gen_stats, "trace_validation_states": res["states"],
            "rejected_case_reasons": len(bad), "confirmed": len(confirmed), "signatures": sig_count, "known_findings": n_known,
-           "drift": drift, "derivation_table_drift": fdrift}
+           "drift": drift, "derivation_table_drift": fdrift, "not_run_after_hang_quota": skipped}
     vlib.write_evidence("C04", tier, "model_checking", cov, assumptions=[
         "nodes append a marker at the end of the stream; chunk type string, map[string]any at keyed fan-in; at least one output chunk",
         "an `any`-typed node output (run-time checked edge) is only produced by value-returning native forms (concatenation of `any` chunks is C14's business)",
